@@ -88,7 +88,9 @@ def reset_state(jitter, prog, spec, all_regs):
     """bring registers and data pages back to the program's initial state (warm re-run)"""
     jitter.cpu.set_gpreg(all_regs)        # every register, not only those the program initialises
     for addr, perm, data, name in prog.pages:
-        if name != "code":          # code bytes never change here: keep the translated blocks
+        # pages the first run left untouched are not rewritten (a write into the code page would
+        # throw the translated blocks away, which is exactly what a warm run wants to keep)
+        if jitter.vm.get_mem(addr, len(data)) != data:
             jitter.vm.set_mem(addr, data)
     jitter.vm.set_exception(0)
     jitter.cpu.set_exception(0)
